@@ -65,6 +65,8 @@ def _run_variant(args) -> dict:
         except AnalysisError as e:
             rep, err = None, str(e)
         if err is not None:
+            if expect == "SILENT":
+                return {"label": label, "status": "FALSE-ALARM", "reports": ["ANALYSIS-ERROR " + err[:160]]}
             return {"label": label, "status": "analysis-error", "why": err[:200]}
         fails = {(o.rule, o.construct) for o in rep.obs if not o.ok}
         known = {(k["rule"], k["construct"]) for k in json.loads((VERIF / "known_findings.json").read_text())["findings"]
@@ -95,6 +97,13 @@ def variants_for(prop: str, root: Path) -> List[tuple]:
                     out.append((prop, f"seeded/{d.name} (retired: must stay silent)", str(root), (d / "patch.diff").read_text(), False, "SILENT"))
                     continue
                 out.append((prop, f"seeded/{d.name}", str(root), (d / "patch.diff").read_text(), False, None))
+    # behaviour-preserving changes (refactorings, equivalent re-spellings, benign extensions) written by independent
+    # agents: every property's rules must stay silent on every one of them
+    bd = VERIF / "benign"
+    if bd.is_dir():
+        for d in sorted(bd.iterdir()):
+            if (d / "patch.diff").exists():
+                out.append((prop, f"benign/{d.name} (must stay silent)", str(root), (d / "patch.diff").read_text(), False, "SILENT"))
     kf = json.loads((VERIF / "known_findings.json").read_text())["findings"]
     seen = set()
     for k in kf:
@@ -129,7 +138,8 @@ def run(prop: str, ctx, rep):
                (r["status"] + (": " + "; ".join(r.get("reports", []))[:200] if r.get("reports") else "") +
                 (": " + r.get("why", "") if r.get("why") else "")), "/verif/seeded", nontrivial=r["status"] == "detected")
     rep.stats["selftest"] = {"variants": len(results),
-                             "detected": sum(r["status"] == "detected" for r in results),
+                             "benign_silent": sum(r["status"] == "detected" and "must stay silent" in r["label"] for r in results),
+                             "detected": sum(r["status"] == "detected" and "must stay silent" not in r["label"] for r in results),
                              "skipped": sum(r["status"] == "skipped" for r in results),
                              "fail_closed": sum(r["status"] == "analysis-error" for r in results),
                              "skipped_labels": [r["label"] for r in results if r["status"] == "skipped"],
